@@ -5,8 +5,8 @@
    orig_tx_create / orig_bumpfee keep the unrepaired statements (the witnesses below are the recorded findings). *)
 From Coq Require Import ZArith List Bool.
 From Coq.Strings Require Import Byte.
-From Verif Require Import Lib.Bytes Gen.GenNetworks Model.CoinSelect Model.TxCreate Model.BumpFee
-  Proofs.CoinSelect Proofs.TxCreateFloat Proofs.TxCreate Proofs.BumpFee.
+From Verif Require Import Lib.Bytes Gen.GenNetworks Model.CoinSelect Model.TxCreate Model.BumpFee Model.TxCreateHistory
+  Proofs.CoinSelect Proofs.TxCreateFloat Proofs.TxCreate Proofs.BumpFee Proofs.TxCreateHistory.
 Import ListNotations.
 Open Scope Z_scope.
 
@@ -117,6 +117,101 @@ Theorem bumpfee_pays_extra : forall b fee extra mult b' nf ex,
   (forall x, In x (b_outputs b') -> o_change x = false -> In x (b_outputs b)).
 Proof. exact bumpfee_pays_extra_lemma. Qed.
 
+(* --- histories on one wallet (Model/TxCreateHistory.v): create / send / sweep with every argument, broadcast,
+       utxos_update and utxo_add with ANY provider listing, re-opening, bumpfee; all operation sequences --- *)
+
+(* every automatically selected or swept input of every transaction returned anywhere in a history is a row of the wallet
+   at that moment, unspent, not referred to by any input of a stored (broadcast) transaction, confirmed as required,
+   inside the requested account / keys; the inputs are pairwise distinct *)
+Theorem history_inputs_unspent_distinct_confirmed : forall env nw w ops r x pushed minc acct keys,
+  In r (h_run env nw w h_empty ops) -> auto_args (hr_op r) = Some (minc, acct, keys) -> hr_out r = OTx x pushed ->
+  (forall u, In u (t_inputs (x_tx x)) ->
+     In u (hs_view (hr_pre r)) /\ u_spent u = false /\ ~ In (u_id u) (consumed (hr_pre r)) /\ minc <= u_conf u /\
+     in_scope (hs_attr (hr_pre r)) acct keys u = true) /\
+  NoDup (map u_id (t_inputs (x_tx x))).
+Proof. exact history_inputs_lemma. Qed.
+
+(* before and after every operation of every history: distinct rows, and a row referred to by an input of a stored wallet
+   transaction is spent (whatever the provider listed, whatever was added by hand, re-opened or bumped) *)
+Theorem history_invariant : forall env nw w ops r,
+  In r (h_run env nw w h_empty ops) -> hinv (hr_pre r) /\ hinv (hr_post r).
+Proof. exact history_invariant_lemma. Qed.
+
+(* "consumed" grows by exactly the inputs of the transactions that were pushed (and shrinks only by a fee bump that
+   replaces a stored transaction) *)
+Theorem history_consumed_is_pushed_inputs : forall env nw w ops r,
+  In r (h_run env nw w h_empty ops) -> step_consumed_spec (hr_pre r) (hr_out r) (hr_post r).
+Proof. exact history_consumed_lemma. Qed.
+
+Theorem history_states_are_chained : forall env nw w ops st,
+  match h_run env nw w st ops with [] => True | r :: _ => hr_pre r = st end /\
+  (forall pre r1 r2 post, h_run env nw w st ops = pre ++ r1 :: r2 :: post -> hr_pre r2 = hr_post r1).
+Proof. exact h_run_chain. Qed.
+
+Theorem pushed_inputs_are_spent_afterwards : forall env nw w st op st' x,
+  hinv st -> h_step env nw w st op = (st', OTx x true) ->
+  forall u, In u (hs_view st') -> In (u_id u) (map u_id (t_inputs (x_tx x))) -> u_spent u = true.
+Proof. exact pushed_inputs_spent. Qed.
+
+(* utxos_update / utxo_add: for every listing, account and rescan flag the stored inputs decide what is spent *)
+Theorem utxos_update_keeps_consumed_spent : forall st acct listing rescan,
+  hinv st ->
+  hinv (fst (h_update st acct listing rescan)) /\
+  hs_txins (fst (h_update st acct listing rescan)) = hs_txins st /\
+  hs_next (fst (h_update st acct listing rescan)) = hs_next st /\
+  hs_last (fst (h_update st acct listing rescan)) = hs_last st.
+Proof. exact h_update_inv. Qed.
+
+(* Wallet.send builds the transaction a second time with the SAME argument record: only the fee differs *)
+Theorem send_recreation_keeps_arguments : forall bcount nw w st rq o1 o2 x,
+  h_send bcount nw w st rq o1 o2 = Ok x ->
+  exists f o, h_create bcount nw w st (hq_with_fee rq f) o = Ok x /\
+              (f = hq_fee rq \/ (hq_fee rq = FeeNone /\ exists fe, f = FeeInt fe)).
+Proof. exact send_recreation_lemma. Qed.
+
+Theorem send_two_phase_is_send : forall bcount nw w st rq o1 o2,
+  h_send bcount nw w st rq o1 o2 = wrap_tx bcount rq (lib_send nw w (scope st rq) (h_request rq) o1 o2).
+Proof. exact h_send_is_send_gen. Qed.
+
+Theorem send_result_respects_arguments : forall bcount nw w st rq o1 o2 x,
+  h_send bcount nw w st rq o1 o2 = Ok x ->
+  x_locktime x = eff_locktime bcount (hq_locktime rq) /\
+  x_seqs x = seqs_of rq (x_locktime x) (x_tx x) /\
+  (hq_inputs rq = None -> forall k, hq_max_utxos rq = Some k -> 0 < k -> Z.of_nat (length (t_inputs (x_tx x))) <= k) /\
+  (exists amounts, t_outputs (x_tx x) = map recipient_out (hq_outputs rq) ++ change_outs 0 amounts) /\
+  sum_values (t_inputs (x_tx x)) = sum_outs (t_outputs (x_tx x)) + t_fee (x_tx x).
+Proof. exact send_arguments_lemma. Qed.
+
+Theorem send_inputs_respect_arguments : forall bcount nw w st rq o1 o2 x,
+  hinv st -> hq_inputs rq = None -> h_send bcount nw w st rq o1 o2 = Ok x ->
+  inputs_admissible st (hq_min_conf rq) (hq_acct rq) (hq_keys rq) (x_tx x).
+Proof. exact h_send_auto. Qed.
+
+Theorem select_respects_max_utxos : forall view amount variance minc dust k l,
+  lib_select_inputs view amount variance minc dust (Some k) = SelOk l -> 0 < k -> Z.of_nat (length l) <= k.
+Proof. exact select_max_utxos. Qed.
+
+Theorem sweep_inputs_unspent_confirmed : forall rep nw w view sq o1 o2 t,
+  sweep_gen rep nw w view sq o1 o2 = Ok t -> NoDup (map u_id view) ->
+  (forall u, In u (t_inputs t) -> In u view /\ u_spent u = false /\ sw_min_conf sq <= u_conf u) /\
+  NoDup (map u_id (t_inputs t)).
+Proof. exact sweep_inputs_lemma. Qed.
+
+(* explicit inputs: whatever key_id / value / address the caller wrote into the tuples or Input objects, a reference to
+   a row of this wallet is valued by that row (guard: every reference names a row; see the _refuted witness) *)
+Theorem explicit_inputs_use_wallet_values : forall bcount nw w st rq o xs x,
+  hq_inputs rq = Some xs -> known_xs (hs_view st) xs ->
+  h_create bcount nw w st rq o = Ok x ->
+  map u_id (t_inputs (x_tx x)) = map x_id xs /\
+  (forall u, In u (t_inputs (x_tx x)) -> In u (hs_view st)) /\
+  sum_values (t_inputs (x_tx x)) = sum_outs (t_outputs (x_tx x)) + t_fee (x_tx x).
+Proof. exact explicit_values_lemma. Qed.
+
+Theorem explicit_inputs_claims_ignored : forall bcount nw w st rq o xs,
+  hq_inputs rq = Some xs -> known_xs (hs_view st) xs ->
+  h_create bcount nw w st rq o = h_create bcount nw w st (strip_claims rq) o.
+Proof. exact explicit_claims_ignored. Qed.
+
 (* --- witnesses --- *)
 Definition w_segwit : wkind := {| wk_wit := Segwit; wk_multisig := false; wk_nkeys := 1; wk_nreq := 1; wk_single := false |}.
 Definition dest1 : bytes := x00 :: x14 :: repeat x11 20.
@@ -193,6 +288,98 @@ Example bumpfee_repaired_witness :
   end.
 Proof. vm_compute. split; reflexivity. Qed.
 
+(* --- histories: witnesses --- *)
+Definition env0 : henv := {| he_bcount := 800000; he_mult := (1, 1); he_mult2 := (0, 1) |}.
+Definition three : list litem :=
+  [{| li_id := 0; li_value := 100000000; li_conf := 10; li_key := 0 |};
+   {| li_id := 1; li_value := 100000000; li_conf := 10; li_key := 1 |};
+   {| li_id := 2; li_value := 100000000; li_conf := 10; li_key := 0 |}].
+Definition hrq (amount : Z) (ins : option (list xin)) (f : fee_req) (minc k : Z) (rbf : bool) : hreq :=
+  {| hq_outputs := [{| r_script := dest1; r_amount := amount; r_change := false |}]; hq_inputs := ins; hq_fee := f;
+     hq_min_conf := minc; hq_max_utxos := None; hq_nchange := k; hq_keys := []; hq_acct := 0; hq_locktime := 0;
+     hq_rbf := rbf |}.
+Definition hist_summary (l : list hrec) : list (option (list Z * Z) * list Z) :=
+  map (fun r => (match hr_out r with OTx x _ => Some (map u_id (t_inputs (x_tx x)), t_fee (x_tx x)) | _ => None end,
+                 map fst (spendable (hr_post r)))) l.
+
+(* non-vacuity: a two-input transaction is broadcast; the provider keeps listing all three outputs (rescan), one is
+   added again by hand, the wallet is re-opened: outputs 0 and 1 never come back, later transactions spend output 2 and
+   then the change output 1006 *)
+Example history_example :
+  hist_summary (h_run env0 nw_bitcoinlib_test w_segwit h_empty
+    [HUpdate 0 three true;
+     HSend (hrq 150000000 None (FeeInt 10000) 1 1 false) no_oracle no_oracle true true;
+     HUpdate 0 three true;
+     HSend (hrq 60000000 None (FeeInt 10000) 1 1 false) no_oracle no_oracle true true;
+     HUtxoAdd 0 {| li_id := 0; li_value := 100000000; li_conf := 12; li_key := 0 |};
+     HReopen;
+     HSend (hrq 30000000 None (FeeInt 10000) 0 1 false) no_oracle no_oracle false true])
+  = [(None, [0; 1; 2]); (Some ([0; 1], 10000), [2; 1002]); (None, [2]); (Some ([2], 10000), [1006]);
+     (None, [1006]); (None, [1006]); (Some ([1006], 10000), [1006])].
+Proof. vm_compute. reflexivity. Qed.
+
+Definition st_three : hstate := fst (h_step env0 nw_bitcoinlib_test w_segwit h_empty (HUpdate 0 three false)).
+Definition xq (id : Z) (claim : option Z) (addr : bool) : xin :=
+  {| x_id := id; x_key := Some 7; x_claim := claim; x_addr := addr; x_obj := false |}.
+Definition created (r : result htx) : result wtx := match r with Ok x => Ok (x_tx x) | Err e => Err e end.
+
+(* the caller claims 2 BTC / 0.5 BTC for output 0 (worth 1 BTC): the row decides *)
+Example explicit_inputs_use_wallet_values_example :
+  h_create 800000 nw_bitcoinlib_test w_segwit st_three (hrq 150000000 (Some [xq 0 (Some 200000000) true]) (FeeInt 10000) 1 1 false) no_oracle
+    = Err EOutGtIn /\
+  tx_summary (created (h_create 800000 nw_bitcoinlib_test w_segwit st_three
+                         (hrq 40000000 (Some [xq 0 (Some 50000000) true]) (FeeInt 10000) 1 1 false) no_oracle))
+    = Some (10000, 59990000, 141, 70921, [0], [40000000; 59990000]).
+Proof. vm_compute. split; reflexivity. Qed.
+
+(* known class explicit_input_not_in_wallet: an outpoint the wallet has no row for, named together with an address of
+   the wallet and a value, is taken at the caller's value (offline use) *)
+Example explicit_inputs_use_wallet_values_refuted :
+  tx_summary (created (h_create 800000 nw_bitcoinlib_test w_segwit st_three
+                         (hrq 40000000 (Some [xq 900 (Some 50000000) true]) (FeeInt 10000) 1 1 false) no_oracle))
+    = Some (10000, 9990000, 141, 70921, [900], [40000000; 9990000]) /\
+  has_id (hs_view st_three) 900 = false.
+Proof. vm_compute. split; reflexivity. Qed.
+
+(* send re-creation (fee = None, random number of change outputs): min_confirms = 6 holds for the rebuilt transaction,
+   the 2-confirmation output 2 (worth 2 BTC, sufficient alone) is not touched *)
+Definition mixed : list litem :=
+  [{| li_id := 0; li_value := 60000000; li_conf := 10; li_key := 0 |};
+   {| li_id := 1; li_value := 60000000; li_conf := 10; li_key := 1 |};
+   {| li_id := 2; li_value := 200000000; li_conf := 2; li_key := 0 |}].
+Definition st_mixed : hstate := fst (h_step env0 nw_bitcoinlib_test w_segwit h_empty (HUpdate 0 mixed false)).
+
+Example send_recreation_example :
+  (match h_create 800000 nw_bitcoinlib_test w_segwit st_mixed (hrq 100000000 None FeeNone 6 0 false) no_oracle with
+   | Ok x => recreate_fee nw_bitcoinlib_test FeeNone (x_tx x) | Err _ => None end) = Some 6966 /\
+  tx_summary (created (h_send 800000 nw_bitcoinlib_test w_segwit st_mixed (hrq 100000000 None FeeNone 6 0 false) no_oracle no_oracle))
+    = Some (6966, 19993034, 209, 39134, [0; 1], [100000000; 19993034]).
+Proof. vm_compute. split; reflexivity. Qed.
+
+(* known class bumpfee_replacement_unverified: bumpfee(broadcast=True) deletes the stored transaction BEFORE sending the
+   replacement; when the replacement does not verify (observed: multisig inputs of different keys) it is not sent and the
+   outputs 0 and 1, consumed by the transaction that WAS broadcast, are spendable again *)
+Definition pre_b : btx :=
+  {| b_inputs := [{| u_id := 0; u_value := 100000000; u_conf := 10; u_spent := false |};
+                  {| u_id := 1; u_value := 100000000; u_conf := 10; u_spent := false |}];
+     b_outputs := [{| o_dest := ToScript dest1; o_value := 150000000; o_change := false |};
+                   {| o_dest := ToChange 0; o_value := 49990000; o_change := true |}];
+     b_fee := 10000; b_vsize := 209 |}.
+
+Example bumpfee_replacement_unverified_refuted :
+  hist_summary (h_run env0 nw_bitcoinlib_test w_segwit h_empty
+    [HUpdate 0 three true; HSend (hrq 150000000 None (FeeInt 10000) 1 1 true) no_oracle no_oracle true true;
+     HBump pre_b 0 2000 true false])
+  = [(None, [0; 1; 2]); (Some ([0; 1], 10000), [2; 1002]); (None, [0; 1; 2])].
+Proof. vm_compute. reflexivity. Qed.
+
+Example bumpfee_replacement_sent_witness :
+  hist_summary (h_run env0 nw_bitcoinlib_test w_segwit h_empty
+    [HUpdate 0 three true; HSend (hrq 150000000 None (FeeInt 10000) 1 1 true) no_oracle no_oracle true true;
+     HBump pre_b 0 2000 true true])
+  = [(None, [0; 1; 2]); (Some ([0; 1], 10000), [2; 1002]); (None, [2; 1006])].
+Proof. vm_compute. reflexivity. Qed.
+
 Print Assumptions select_sufficient.
 Print Assumptions select_within_available.
 Print Assumptions select_no_utxos_iff.
@@ -210,3 +397,17 @@ Print Assumptions bumpfee_no_negative_output.
 Print Assumptions bumpfee_never_fails_on_negative_value.
 Print Assumptions bumpfee_conserves.
 Print Assumptions bumpfee_pays_extra.
+Print Assumptions history_inputs_unspent_distinct_confirmed.
+Print Assumptions history_invariant.
+Print Assumptions history_consumed_is_pushed_inputs.
+Print Assumptions history_states_are_chained.
+Print Assumptions pushed_inputs_are_spent_afterwards.
+Print Assumptions utxos_update_keeps_consumed_spent.
+Print Assumptions send_recreation_keeps_arguments.
+Print Assumptions send_two_phase_is_send.
+Print Assumptions send_result_respects_arguments.
+Print Assumptions send_inputs_respect_arguments.
+Print Assumptions select_respects_max_utxos.
+Print Assumptions sweep_inputs_unspent_confirmed.
+Print Assumptions explicit_inputs_use_wallet_values.
+Print Assumptions explicit_inputs_claims_ignored.
